@@ -1238,7 +1238,12 @@ def fam_cos_sin(st):
     A2.fam_cos_sin(st, probe)
 
 
-FAMILIES = [fam_rms, fam_skip, fam_layer_norm, fam_gelu, fam_bias_gelu, fam_softmax, fam_matmul, fam_rotary, fam_sdpa,
+def fam_pipeline_stages(st):
+    from harness import c19_stages
+    c19_stages.fam_pipeline_stages(st)
+
+
+FAMILIES = [fam_pipeline_stages, fam_rms, fam_skip, fam_layer_norm, fam_gelu, fam_bias_gelu, fam_softmax, fam_matmul, fam_rotary, fam_sdpa,
             fam_attention, fam_gqa, fam_repo_models, fam_mha, fam_sdpa_lowering, fam_attention_rule, fam_gqa_rule, fam_group_norm2, fam_cos_sin]
 
 
@@ -1271,7 +1276,15 @@ def coq_correspondence(st):
         ctx.cover(**{f"corr_{name}_cases": len(cases)})
 
 
+def regenerate(ctx):
+    from harness import c19_pipeline
+    ctx.pipeline_info = c19_pipeline.regenerate(ctx)
+
+
 def run(ctx):
+    ctx.trust("translator harness/c19_pipeline.py (Python ast, fail-closed) -> coq/Gen/C19Pipeline.v; the shape predicate pipeline_ok and the "
+              "stage table of coq/Fusion/Pipeline.v are hand-written; the per-stage soundness hypotheses of C19_optimize_for_ort_composition "
+              "are discharged only as far as the table says (Props theorems on rows / heads + check-sufficiency; the splice step is property C07)")
     ctx.assume("theorems are identities over an arbitrary field (Section hypothesis field_theory); float rounding, NaN/inf and the "
                "evaluation order of the fused kernels are outside the Coq model and are observed by the direct oracle with "
                "rtol/atol float32 1e-4/1e-5, float16 1e-2/1e-3 (atol scaled by the output magnitude)")
@@ -1295,12 +1308,23 @@ def run(ctx):
                           "pipeline / gqa / repo models": "slack x2 - x10, i.e. up to the repo's rtol = atol = 1e-3"},
               float32_only_families={"gqa / gqa_rule": "the repo's Phi-style block builder and the CPU GroupQueryAttention kernel with past are float32 here",
                                      "pipeline:repo-model": "the repo's cut-out models are float32"})
+    # Is a float16 model expected to FUSE?  The GELU rules (gelu.py, erfgelu.py) match their constants (sqrt(2), sqrt(2/pi), 0.044715)
+    # as Python floats with the matcher's rel_tol = 1e-5; rounded to half precision they are 4e-5 .. 1.5e-4 away, so a model exported in
+    # float16 is left unchanged.  The repo's tests of these rules are float32 only and nothing documents half-precision support:
+    # not firing satisfies the property (model unchanged); a floor on fired float16 instances is asserted everywhere else.
+    not_expected = {"gelu_tanh": "constants 0.044715 / sqrt(2/pi) in half precision are outside rel_tol 1e-5",
+                    "gelu_erf": "sqrt(2) in half precision (1.4140625) is outside rel_tol 1e-5",
+                    "erfgelu1": "as gelu_erf", "erfgelu2": "as gelu_erf"}
+    ctx.cover(float16_fusion_expected={f: (f not in not_expected) for f in sorted(st.by_dtype)}, float16_not_expected_because=not_expected,
+              float16_fired_per_family={f: dd.get("float16", [0, 0])[1] for f, dd in sorted(st.by_dtype.items())})
     for fam_, dd in st.by_dtype.items():
-        fired16 = dd.get("float16", [0, 0])
-        if fam_.startswith(("gqa", "pipeline:repo")) or fam_ in ("softmax",):
+        f16, f32 = dd.get("float16", [0, 0]), dd.get("float32", [0, 0])
+        if fam_.startswith(("gqa", "pipeline:repo", "pipeline:stages")) or fam_ in ("softmax",):
             continue
-        if dd.get("float32", [0, 0])[0] >= 6 and fired16[0] == 0:
+        if f32[0] >= 6 and f16[0] == 0:
             ctx.tie_broken("harness", f"generator-degenerate:{fam_}:float16", f"no float16 instance of {fam_}: {dd}")
+        if fam_ not in not_expected and f16[0] >= 3 and f16[1] == 0 and f32[1] > 0:
+            ctx.tie_broken("harness", f"generator-degenerate:{fam_}:float16-never-fires", f"{fam_} fires in float32 but on none of {f16[0]} float16 instances: {dd}")
     ctx.cover(families=st.stats, fired_total=total_fired,
               structural_only=sorted(st.structural_only),
               executable_fused_ops=["SimplifiedLayerNormalization", "RMSNormalization", "LayerNormalization", "SkipSimplifiedLayerNormalization",
